@@ -115,3 +115,28 @@ Theorem C14_param_value_is_segment :
     Forall (fun kv => snd kv <> [] /\ has_slash (snd kv) = false) b.
 Proof. exact pattern_param_values. Qed.
 Print Assumptions C14_param_value_is_segment.
+
+(** ---- a path built from a route's segments with given parameter values matches that
+    route and returns those values ----
+    refuted as such (F-C14-b: StaticSegment "a/b" does not match /a/b) ... *)
+Theorem C14_build_then_match_refuted :
+  exists rs f vals,
+    wf_tree rs = true /\ wf_routes rs = true /\ gen_routes rs = [f] /\ vals_ok f vals
+    /\ match_route None rs (build_path f vals) = MNo.
+Proof. exact build_then_match_refuted. Qed.
+Print Assumptions C14_build_then_match_refuted.
+
+(** ... and true outside the known classes: for a table that declares one flat route [f]
+    (any nesting of routes and tuples), the path built from [f] the way the table entry is
+    built, with one value per parameter (non-empty, free of '/'; anything for a splat),
+    matches and returns exactly those values.  (Tables with several routes: the first
+    matching one wins, C14_first_match_wins.)  Stated without base path. *)
+Theorem C14_build_then_match_except_known :
+  forall rs f vals p,
+    wf_tree rs = true -> wf_routes rs = true ->
+    gen_routes rs = [f] ->
+    vals_ok f vals -> p = build_path f vals ->
+    known_class None rs p = false ->
+    exists ch, match_route None rs p = MYes ch (bindings f vals).
+Proof. exact build_then_match. Qed.
+Print Assumptions C14_build_then_match_except_known.
